@@ -96,12 +96,21 @@ def run(ctx):
             if not rejected and kind == "return" and n_d != 1:
                 bad = f"{n_d} dispatches for an accepted message"
         ctx.check(bad is None, "R08.3", new, f"{src}: exactly one dispatch per accepted message, none when filtered", msg=f"{new}: {bad}", key=f"{src} dispatch count", node=f, rel=new.split("::")[0])
-    tw = program.func("trigger.py::TrigInfo.trigger_watch")
-    txt = norm(tw)
+    from ..legacy import WATCH, watch_occurrence
+    tw = program.func(WATCH)
     for kind in ("event", "mqtt", "webhook"):
-        ok = f"trig_ok = await self._call_expression(self.{kind}_trig_expr, notify_info)" in txt
-        ctx.check(ok, "R08.3", "trigger.py::TrigInfo.trigger_watch", f"legacy {kind} filter evaluated on the notification", msg=f"legacy trigger_watch no longer evaluates the {kind} filter on the notification's arguments",
-                  key=f"legacy {kind} filter", node=tw, rel="trigger.py")
+        uk = DictV([(Const("extra"), Const(1))])
+        for fv in (True, False, 0, "yes"):
+            recs, occ, _ = watch_occurrence(program, kind, filter_value=fv, user_kwargs=uk)
+            bad = None if recs else "no exit"
+            for r in recs:
+                fin = [f[1] for f in r["filter_inputs"] if len(f) > 1]
+                if fin != [occ]:
+                    bad = f"the filter expression is evaluated on {fin!r}, the occurrence's arguments are {occ!r}"
+                elif len(r["runs"]) != (1 if fv else 0):
+                    bad = f"{len(r['runs'])} run(s) although the filter evaluated to {fv!r}"
+            ctx.check(bad is None, "R08.3", WATCH, f"legacy {kind}: filter value {fv!r} evaluated on the occurrence's arguments, one run iff truthy",
+                      msg=f"legacy trigger_watch, {kind} occurrence, filter value {fv!r}: {bad}", key=f"legacy {kind} filter {fv!r}", node=tw, rel="trigger.py")
     # one task per occurrence
     for uid, n_exp in (("trigger.py::TrigInfo.call_action", 1), ("decorator.py::FunctionDecoratorManager.dispatch", 1)):
         f = program.func(uid)
